@@ -230,8 +230,8 @@ def rule_r2(ctx) -> RuleResult:
         if isinstance(k, ast.Name) and probes and isinstance(probes[0].slice, ast.Name) and k.id == probes[0].slice.id:
             rr.ok(FN, "membership test uses the probe key")
     # values visited through get_page(<value>, template_ns_id)
-    inner = [n for n in ast.walk(lp) if isinstance(n, ast.For) and isinstance(n.iter, ast.Subscript)
-             and unparse(n.iter.value) == "included_map"]
+    inner = [n for n in ast.walk(lp) if isinstance(n, ast.For) and not isinstance(n.iter, ast.Name)
+             and any(isinstance(x, ast.Name) and x.id == "included_map" for x in ast.walk(n.iter))]
     if not inner:
         # the includers may be collected into a name first
         for n in ast.walk(lp):
